@@ -258,6 +258,36 @@ func registerIntrinsics(e *Engine) {
 		"runtime.Gosched", "runtime.KeepAlive"} {
 		I[n] = zeroRes
 	}
+	// sync.Pool: Get always builds a new object with New (a hand-over through the pool is synchronised, so reuse is
+	// not a shared write); Put records the memory as released, see the use-after-release rule at Return
+	I["(*sync.Pool).Get"] = func(x *Exec, caller *frame, fn *ssa.Function, args []Value) Value {
+		st, ok := x.deref(args[0]).V.(Struct)
+		if !ok {
+			panic(x.unsupported("sync.Pool representation"))
+		}
+		pt := fn.Signature.Recv().Type().(*types.Pointer).Elem().Underlying().(*types.Struct)
+		for i := 0; i < pt.NumFields(); i++ {
+			if pt.Field(i).Name() == "New" {
+				if newFn := st[i].V; newFn != nil {
+					if cl, isCl := newFn.(*Closure); !isCl || cl != nil {
+						if f, isFn := newFn.(*ssa.Function); !isFn || f != nil {
+							return x.callValue(newFn, nil, caller)
+						}
+					}
+				}
+			}
+		}
+		return Iface{}
+	}
+	I["(*sync.Pool).Put"] = func(x *Exec, caller *frame, fn *ssa.Function, args []Value) Value {
+		if x.trackWrite {
+			if x.released == nil {
+				x.released = map[interface{}]bool{}
+			}
+			x.collectMutable(args[1], x.released, map[interface{}]bool{})
+		}
+		return nil
+	}
 	I["(*sync.Mutex).TryLock"] = func(x *Exec, caller *frame, fn *ssa.Function, args []Value) Value { return x.ctx.True }
 	atomicLoad := func(x *Exec, caller *frame, fn *ssa.Function, args []Value) Value { return x.load(x.deref(args[0])) }
 	atomicStore := func(x *Exec, caller *frame, fn *ssa.Function, args []Value) Value {
